@@ -196,4 +196,26 @@ def transactCtx (env : Env) (f : Faults) (b : Body) : Result :=
   else if !env.connOk then { log := [], runs := 0, body := .notRun, ret := some (Err.of .conn), mark := some false }
   else { transactOnConn f b with mark := some (acceptable env.userAccept (transactOnConn f b).ret) }
 
+/-- the request got past context check, breaker and connection provider -/
+def Env.admitted (env : Env) : Bool := !env.ctxDone && env.brkAllow && env.connOk
+
+/-- a transaction was opened on the driver -/
+def opened (env : Env) (f : Faults) : Bool := env.admitted && f.begin
+
+/-- the one call that ends an opened transaction: decided by how the body ended -/
+def endEvent (f : Faults) (b : Body) : Ev :=
+  match (runBody b).2 with
+  | .nil => .commit f.commit
+  | _ => .rollback f.rollback
+
+/-- the statements that are executed: up to and including the first one whose error the body returns -/
+def executed : List Stmt → List Stmt
+  | [] => []
+  | s :: rest => if s.failing && s.prop then [s] else s :: executed rest
+
+/-- driver calls of a list of statements that all run, numbered from `i` -/
+def eventsOf : Nat → List Stmt → List Ev
+  | _, [] => []
+  | i, s :: rest => stmtEv i s ++ eventsOf (i + 1) rest
+
 end GoZero.C14
